@@ -73,6 +73,7 @@ func deferredClosureWrites(d *ssa.Defer) bool {
 type retInfo struct {
 	st      *State
 	results []Val
+	key     string // "<source text of the return statement>#k" (top-level function only)
 }
 
 func shortFuncName(key string) string {
@@ -238,6 +239,38 @@ func (v *Verifier) VerifyFunction(key string) {
 			label = fmt.Sprint(i + 1)
 		}
 		if !v.clauseSelected(label) {
+			continue
+		}
+		if spec.SplitPosts[label] || spec.SplitPosts["*"] {
+			// `split LABEL...`: the postcondition is proved once per return statement over that return's own state instead of
+			// once over the merged state of all returns (many small queries instead of one with an n-way case split)
+			for _, r := range rets {
+				if r.st.dead {
+					continue
+				}
+				renv := fc.env(r.st, fc.entry)
+				renv.vars = fc.paramVars()
+				for i2, rv := range r.results {
+					var gt types.Type
+					if i2 < res.Len() {
+						gt = res.At(i2).Type()
+					}
+					renv.results = append(renv.results, SV{T: v.asTerm(r.st, rv), GoT: gt})
+				}
+				renv.resNames = fc.resNames
+				rst := r.st
+				for _, u := range spec.Uses {
+					if u.Where == "return" {
+						rst = rst.clone()
+						fc.applyUse(rst, renv, u)
+					}
+				}
+				rt, err := renv.EvalBool(e.E)
+				if err != nil {
+					panic(specError{fmt.Sprintf("ensures (line %d): %v", e.Line, err)})
+				}
+				v.addObligation(&Obligation{Name: fc.short + "#post." + label + "[" + r.key + "]", Kind: "post", Func: key, Assume: rst.pc, Goal: rt, Expect: "unsat", Src: e.Src, wenv: renv})
+			}
 			continue
 		}
 		v.addObligation(&Obligation{Name: fc.short + "#post." + label, Kind: "post", Func: key, Assume: final.pc, Goal: t, Expect: "unsat", Src: e.Src, wenv: env})
@@ -876,7 +909,11 @@ func (fc *FuncCtx) execFunc(fr *Frame, st0 *State) []retInfo {
 						v.addObligation(&Obligation{Name: name, Kind: "canary", Func: fc.key, Pos: v.fset.Position(t.Pos()).String(), Assume: st.pc, Expect: "sat"})
 					}
 				}
-				rets = append(rets, retInfo{st, rs})
+				rk := ""
+				if fr.fn == fc.fn {
+					rk = fc.returnKey(t)
+				}
+				rets = append(rets, retInfo{st, rs, rk})
 				terminated = true
 			case *ssa.Panic:
 				if !(fc.spec != nil && (fc.spec.MayPanic || fc.spec.Allow["panic"])) {
